@@ -545,15 +545,8 @@ class Engine(OpsMixin):
             if name in self.DATA_MOVERS[dict]:
                 return fn(*args, **kwargs)
         if isinstance(recv, set):
-            if name == "add" and deep_sym(args[0]):
-                ent = self.symsets.setdefault(id(recv), (recv, []))[1]
-                for k in list(recv) + ent:
-                    c = self.cmp("Eq", args[0], k)
-                    if c is False:
-                        continue
-                    if self.truth(c):
-                        return None
-                ent.append(args[0])
+            if name == "add" and (deep_sym(args[0]) or id(recv) in self.symsets):
+                self.set_add(recv, args[0])
                 return None
             if name in self.DATA_MOVERS[set] and not any(deep_sym(a) for a in args):
                 return fn(*args, **kwargs)
@@ -1512,10 +1505,29 @@ class Engine(OpsMixin):
         return self.e_ListComp(e, f)
 
     def e_SetComp(self, e, f):
-        out = self.e_ListComp(e, f)
-        if any(is_sym(x) for x in out):
-            raise Unsupported("set comprehension with symbolic items")
-        return set(out)
+        items = self.e_ListComp(e, f)
+        out = set()
+        for x in items:
+            self.set_add(out, x)
+        return out
+
+    def set_add(self, st, item):
+        if not deep_sym(item):
+            ent = self.symsets.get(id(st))
+            if ent is None:
+                st.add(item)
+                return
+        ent = self.symsets.setdefault(id(st), (st, []))[1]
+        for k in list(st) + ent:
+            c = self.cmp("Eq", item, k)
+            if c is False:
+                continue
+            if self.truth(c):
+                return
+        if deep_sym(item):
+            ent.append(item)
+        else:
+            st.add(item)
 
     def e_DictComp(self, e, f):
         out = {}
